@@ -1,8 +1,10 @@
 /-
 Search theorems behind C11 and C12 (statements fixed; proofs below).
 
-`firstPass b tf k` is the first deepening pass of `search` (depth 0, no previous best move) and
-`firstPassFinished` says that the poll closing it did not report expiry.
+`firstPass pos b tf k` is the first deepening pass of `search pos` (depth 0, no previous best move) and
+`firstPassFinished` says that the poll closing it did not report expiry.  `pos` is the engine's `positional` flag
+(a section variable: every theorem here takes it as its leading argument and holds for both values — of the
+evaluation the proofs use only `eval_raw`, that it returns a numeric score).
 -/
 import ChessVerif.Props.C01
 import ChessVerif.Props.C02
@@ -20,14 +22,16 @@ open Chess Chess.Spec Chess.Engine Chess.MoveGen
 
 
 
+variable (pos : Bool)
+
 /-! ### the first pass inside `search` -/
 
 /-- the two root loops of the first pass, named -/
 theorem firstPass_eq (b : Board) (tf : ThreeFold) (k : Nat) (l1 l2 : Pass × MoveGen × St)
-    (h1 : rootLoop k b b.turn 0 tf 5000 ((MoveGen.legals b).setMask (b.raw.color b.turn.flip))
+    (h1 : rootLoop pos k b b.turn 0 tf 5000 ((MoveGen.legals b).setMask (b.raw.color b.turn.flip))
       (pass0 b.turn) ⟨0, 0⟩ = l1)
-    (h2 : rootLoop k b b.turn 0 tf 5000 (l1.2.1.setMask BB.full) l1.1 l1.2.2 = l2) :
-    firstPass b tf k = (l2.1, l2.2.2) := by
+    (h2 : rootLoop pos k b b.turn 0 tf 5000 (l1.2.1.setMask BB.full) l1.1 l1.2.2 = l2) :
+    firstPass pos b tf k = (l2.1, l2.2.2) := by
   unfold firstPass
   simp only
   unfold pass0 at h1
@@ -37,27 +41,27 @@ theorem firstPass_eq (b : Board) (tf : ThreeFold) (k : Nat) (l1 l2 : Pass × Mov
   rw [h2]
 
 theorem search_eq (b : Board) (tf : ThreeFold) (k prev : Nat) (l1 l2 : Pass × MoveGen × St)
-    (h1 : rootLoop k b b.turn 0 tf 5000 ((MoveGen.legals b).setMask (b.raw.color b.turn.flip))
+    (h1 : rootLoop pos k b b.turn 0 tf 5000 ((MoveGen.legals b).setMask (b.raw.color b.turn.flip))
       (pass0 b.turn) ⟨0, 0⟩ = l1)
-    (h2 : rootLoop k b b.turn 0 tf 5000 (l1.2.1.setMask BB.full) l1.1 l1.2.2 = l2) :
-    search b tf k prev =
+    (h2 : rootLoop pos k b b.turn 0 tf 5000 (l1.2.1.setMask BB.full) l1.1 l1.2.2 = l2) :
+    search pos b tf k prev =
       if l2.2.2.polls ≥ k then ⟨none, worst b.turn, prev, l2.2.2.evals, l2.2.2.polls + 1⟩
       else match l2.1.score with
         | .blackMateIn _ | .whiteMateIn _ => ⟨l2.1.best, l2.1.score, 0, l2.2.2.evals, l2.2.2.polls + 1⟩
-        | _ => deepen k b b.turn tf (k + 1) (if 0 + 1 ≥ 65535 then 65535 else 0 + 1)
+        | _ => deepen pos k b b.turn tf (k + 1) (if 0 + 1 ≥ 65535 then 65535 else 0 + 1)
             l2.1.best l2.1.score 0 ⟨l2.2.2.polls + 1, l2.2.2.evals⟩ := by
   unfold search
   rw [deepen_none]
-  exact passTail_eq k b b.turn tf (k + 1) 0 none (worst b.turn) prev (pass0 b.turn) (MoveGen.legals b) ⟨0, 0⟩
+  exact passTail_eq pos k b b.turn tf (k + 1) 0 none (worst b.turn) prev (pass0 b.turn) (MoveGen.legals b) ⟨0, 0⟩
     l1 l2 h1 h2
 
 theorem firstPassFinished_iff (b : Board) (tf : ThreeFold) (k : Nat) (l1 l2 : Pass × MoveGen × St)
-    (h1 : rootLoop k b b.turn 0 tf 5000 ((MoveGen.legals b).setMask (b.raw.color b.turn.flip))
+    (h1 : rootLoop pos k b b.turn 0 tf 5000 ((MoveGen.legals b).setMask (b.raw.color b.turn.flip))
       (pass0 b.turn) ⟨0, 0⟩ = l1)
-    (h2 : rootLoop k b b.turn 0 tf 5000 (l1.2.1.setMask BB.full) l1.1 l1.2.2 = l2) :
-    firstPassFinished b tf k = true ↔ l2.2.2.polls < k := by
+    (h2 : rootLoop pos k b b.turn 0 tf 5000 (l1.2.1.setMask BB.full) l1.1 l1.2.2 = l2) :
+    firstPassFinished pos b tf k = true ↔ l2.2.2.polls < k := by
   unfold firstPassFinished
-  rw [firstPass_eq b tf k l1 l2 h1 h2]
+  rw [firstPass_eq pos b tf k l1 l2 h1 h2]
   simp [poll]
 
 theorem avail_legals_iff (b : Board) (x : Move) :
@@ -81,8 +85,8 @@ theorem accept_best (pc : Color) (p : Pass) (mv : Move) (new : Score) :
 
 /-- every board, every history, every expiry index: a returned move is one the generator yields -/
 theorem search_legal (b : Board) (tf : ThreeFold) (k prev : Nat) (mv : Move)
-    (h : (search b tf k prev).move = some mv) : mv ∈ Props.C10.movesOf (MoveGen.legals b) := by
-  have key := deepen_inv k b b.turn tf
+    (h : (search pos b tf k prev).move = some mv) : mv ∈ Props.C10.movesOf (MoveGen.legals b) := by
+  have key := deepen_inv pos k b b.turn tf
     (fun o _ => ∀ m, o = some m → m ∈ Props.C10.movesOf (MoveGen.legals b))
     (fun p => ∀ m, p.best = some m → m ∈ Props.C10.movesOf (MoveGen.legals b))
     (fun _ _ m hm => by cases hm)
@@ -92,7 +96,7 @@ theorem search_legal (b : Board) (tf : ThreeFold) (k prev : Nat) (mv : Move)
       · rw [hb] at hm; cases hm; exact hI _ rfl
       · rw [hb] at hm; cases hm)
     (fun depth n g p st hsub hP =>
-      rootLoop_inv k b b.turn depth tf
+      rootLoop_inv pos k b b.turn depth tf
         (fun p => ∀ m, p.best = some m → m ∈ Props.C10.movesOf (MoveGen.legals b))
         (fun x => x ∈ Props.C10.movesOf (MoveGen.legals b))
         (fun mv p st p' st' hV hI hr m hm => by
@@ -107,20 +111,20 @@ theorem search_legal (b : Board) (tf : ThreeFold) (k prev : Nat) (mv : Move)
 
 /-- no legal move: no move returned -/
 theorem search_none (b : Board) (tf : ThreeFold) (k prev : Nat)
-    (h : (MoveGen.legals b).isEmpty = true) : (search b tf k prev).move = none := by
-  cases hm : (search b tf k prev).move with
+    (h : (MoveGen.legals b).isEmpty = true) : (search pos b tf k prev).move = none := by
+  cases hm : (search pos b tf k prev).move with
   | none => rfl
   | some mv =>
-    have := search_legal b tf k prev mv hm
+    have := search_legal pos b tf k prev mv hm
     rw [isEmpty_eq_mvsOf, List.isEmpty_iff] at h
     rw [Props.C10.movesOf_eq, h] at this
     cases this
 
 /-- the first pass did not finish: no move returned -/
 theorem search_unfinished (b : Board) (tf : ThreeFold) (k prev : Nat)
-    (h : firstPassFinished b tf k = false) : (search b tf k prev).move = none := by
-  have hfin := firstPassFinished_iff b tf k _ _ rfl rfl
-  rw [search_eq b tf k prev _ _ rfl rfl]
+    (h : firstPassFinished pos b tf k = false) : (search pos b tf k prev).move = none := by
+  have hfin := firstPassFinished_iff pos b tf k _ _ rfl rfl
+  rw [search_eq pos b tf k prev _ _ rfl rfl]
   rw [h] at hfin
   rw [if_pos (by
     apply Nat.le_of_not_lt
@@ -132,7 +136,7 @@ private def Started (pc : Color) (p : Pass) : Prop := p.best.isSome = true ∨ p
 
 private theorem started_step (k : Nat) (b : Board) (pc : Color) (depth : Nat) (tf : ThreeFold)
     (mv : Move) (p : Pass) (st : St) (p' : Pass) (st' : St) (hS : Started pc p)
-    (hr : rootMove k b pc depth tf mv p st = (some p', st')) : p'.best.isSome = true := by
+    (hr : rootMove pos k b pc depth tf mv p st = (some p', st')) : p'.best.isSome = true := by
   obtain ⟨new, rfl, hns, _⟩ := rootMove_some hr
   unfold accept
   simp only
@@ -146,19 +150,19 @@ private theorem started_step (k : Nat) (b : Board) (pc : Color) (depth : Nat) (t
 
 /-- the first pass finished and legal moves exist: a move is returned -/
 theorem search_some (b : Board) (tf : ThreeFold) (k prev : Nat)
-    (hf : firstPassFinished b tf k = true) (hm : (MoveGen.legals b).isEmpty = false) :
-    (search b tf k prev).move.isSome = true := by
-  have hfin := (firstPassFinished_iff b tf k _ _ rfl rfl).1 hf
-  rw [search_eq b tf k prev _ _ rfl rfl]
+    (hf : firstPassFinished pos b tf k = true) (hm : (MoveGen.legals b).isEmpty = false) :
+    (search pos b tf k prev).move.isSome = true := by
+  have hfin := (firstPassFinished_iff pos b tf k _ _ rfl rfl).1 hf
+  rw [search_eq pos b tf k prev _ _ rfl rfl]
   -- the two loops
-  have hst1 := rootLoop_struct k b b.turn 0 tf 5000 ((MoveGen.legals b).setMask (b.raw.color b.turn.flip))
+  have hst1 := rootLoop_struct pos k b b.turn 0 tf 5000 ((MoveGen.legals b).setMask (b.raw.color b.turn.flip))
     (pass0 b.turn) ⟨0, 0⟩
-  have hfirst1 := rootLoop_first k b b.turn 0 tf (Started b.turn) (fun p => p.best.isSome = true)
-    (fun mv p st p' st' hS hr => started_step k b b.turn 0 tf mv p st p' st' hS hr)
-    (fun mv p st p' st' hS hr => started_step k b b.turn 0 tf mv p st p' st' (Or.inl hS) hr)
+  have hfirst1 := rootLoop_first pos k b b.turn 0 tf (Started b.turn) (fun p => p.best.isSome = true)
+    (fun mv p st p' st' hS hr => started_step pos k b b.turn 0 tf mv p st p' st' hS hr)
+    (fun mv p st p' st' hS hr => started_step pos k b b.turn 0 tf mv p st p' st' (Or.inl hS) hr)
     4999 ((MoveGen.legals b).setMask (b.raw.color b.turn.flip)) (pass0 b.turn) ⟨0, 0⟩
   have hnext1 : ((MoveGen.legals b).setMask (b.raw.color b.turn.flip)).next.1.isSome = false →
-      rootLoop k b b.turn 0 tf 5000 ((MoveGen.legals b).setMask (b.raw.color b.turn.flip))
+      rootLoop pos k b b.turn 0 tf 5000 ((MoveGen.legals b).setMask (b.raw.color b.turn.flip))
         (pass0 b.turn) ⟨0, 0⟩ =
       (pass0 b.turn, ((MoveGen.legals b).setMask (b.raw.color b.turn.flip)).next.2, ⟨0, 0⟩) := by
     intro hnone
@@ -169,18 +173,18 @@ theorem search_some (b : Board) (tf : ThreeFold) (k prev : Nat)
       cases o with
       | none => rfl
       | some m => cases hnone
-  generalize hl1 : rootLoop k b b.turn 0 tf 5000 ((MoveGen.legals b).setMask (b.raw.color b.turn.flip))
+  generalize hl1 : rootLoop pos k b b.turn 0 tf 5000 ((MoveGen.legals b).setMask (b.raw.color b.turn.flip))
     (pass0 b.turn) ⟨0, 0⟩ = l1 at hfin hst1 hfirst1 hnext1 ⊢
-  have hst2 := rootLoop_struct k b b.turn 0 tf 5000 (l1.2.1.setMask BB.full) l1.1 l1.2.2
-  have hinv2 := rootLoop_inv k b b.turn 0 tf (fun p => p.best.isSome = true) (fun _ => True)
-    (fun mv p st p' st' _ hS hr => started_step k b b.turn 0 tf mv p st p' st' (Or.inl hS) hr)
+  have hst2 := rootLoop_struct pos k b b.turn 0 tf 5000 (l1.2.1.setMask BB.full) l1.1 l1.2.2
+  have hinv2 := rootLoop_inv pos k b b.turn 0 tf (fun p => p.best.isSome = true) (fun _ => True)
+    (fun mv p st p' st' _ hS hr => started_step pos k b b.turn 0 tf mv p st p' st' (Or.inl hS) hr)
     5000 (l1.2.1.setMask BB.full) l1.1 l1.2.2 (fun _ _ => trivial)
-  have hfirst2 := rootLoop_first k b b.turn 0 tf (Started b.turn) (fun p => p.best.isSome = true)
-    (fun mv p st p' st' hS hr => started_step k b b.turn 0 tf mv p st p' st' hS hr)
-    (fun mv p st p' st' hS hr => started_step k b b.turn 0 tf mv p st p' st' (Or.inl hS) hr)
+  have hfirst2 := rootLoop_first pos k b b.turn 0 tf (Started b.turn) (fun p => p.best.isSome = true)
+    (fun mv p st p' st' hS hr => started_step pos k b b.turn 0 tf mv p st p' st' hS hr)
+    (fun mv p st p' st' hS hr => started_step pos k b b.turn 0 tf mv p st p' st' (Or.inl hS) hr)
     4999 (l1.2.1.setMask BB.full) l1.1 l1.2.2
   simp only [Nat.reduceAdd] at hfirst2
-  generalize hl2 : rootLoop k b b.turn 0 tf 5000 (l1.2.1.setMask BB.full) l1.1 l1.2.2 = l2
+  generalize hl2 : rootLoop pos k b b.turn 0 tf 5000 (l1.2.1.setMask BB.full) l1.1 l1.2.2 = l2
     at hfin hst2 hinv2 hfirst2 ⊢
   have hbest : l2.1.best.isSome = true := by
     cases hsome : ((MoveGen.legals b).setMask (b.raw.color b.turn.flip)).next.1.isSome with
@@ -228,15 +232,15 @@ theorem search_some (b : Board) (tf : ThreeFold) (k prev : Nat)
           | cons _ _ => rfl
   rw [if_neg (by omega)]
   have hrest : ∀ passes depth s maxDepth st,
-      (deepen k b b.turn tf passes depth l2.1.best s maxDepth st).move.isSome = true := by
+      (deepen pos k b b.turn tf passes depth l2.1.best s maxDepth st).move.isSome = true := by
     intro passes depth s maxDepth st
-    exact deepen_inv k b b.turn tf (fun o _ => o.isSome = true) (fun p => p.best.isSome = true)
+    exact deepen_inv pos k b b.turn tf (fun o _ => o.isSome = true) (fun p => p.best.isSome = true)
       (fun _ h => by cases h)
       (fun mv s depth st p' st' _ hr =>
-        started_step k b b.turn depth tf mv _ st p' st' (Or.inr rfl) hr)
+        started_step pos k b b.turn depth tf mv _ st p' st' (Or.inr rfl) hr)
       (fun depth n g p st _ hP =>
-        rootLoop_inv k b b.turn depth tf (fun p => p.best.isSome = true) (fun _ => True)
-          (fun mv p st p' st' _ hS hr => started_step k b b.turn depth tf mv p st p' st' (Or.inl hS) hr)
+        rootLoop_inv pos k b b.turn depth tf (fun p => p.best.isSome = true) (fun _ => True)
+          (fun mv p st p' st' _ hS hr => started_step pos k b b.turn depth tf mv p st p' st' (Or.inl hS) hr)
           n g p st (fun _ _ => trivial) hP)
       (fun p hP => hP) passes depth l2.1.best s maxDepth st hbest
   split
@@ -256,20 +260,20 @@ theorem legalsList_eq (b : Board) (hwf : b.WF = true) :
 
 /-- in terms of the rules of chess, for well-formed boards -/
 theorem search_legal_spec (b : Board) (hwf : b.WF = true) (tf : ThreeFold) (k prev : Nat) (mv : Move)
-    (h : (search b tf k prev).move = some mv) : (abs b).legal mv = true := by
+    (h : (search pos b tf k prev).move = some mv) : (abs b).legal mv = true := by
   rw [← Props.C01.legals_iff b hwf mv, legalsList_eq b hwf]
-  exact search_legal b tf k prev mv h
+  exact search_legal pos b tf k prev mv h
 
 theorem search_none_spec (b : Board) (hwf : b.WF = true) (tf : ThreeFold) (k prev : Nat)
-    (h : (abs b).legalMoves = []) : (search b tf k prev).move = none := by
+    (h : (abs b).legalMoves = []) : (search pos b tf k prev).move = none := by
   apply search_none
   rw [Props.C03.isEmpty_iff b hwf, h]
   rfl
 
 theorem search_some_spec (b : Board) (hwf : b.WF = true) (tf : ThreeFold) (k prev : Nat)
-    (hf : firstPassFinished b tf k = true) (hm : (abs b).legalMoves ≠ []) :
-    (search b tf k prev).move.isSome = true := by
-  apply search_some b tf k prev hf
+    (hf : firstPassFinished pos b tf k = true) (hm : (abs b).legalMoves ≠ []) :
+    (search pos b tf k prev).move.isSome = true := by
+  apply search_some pos b tf k prev hf
   rw [Props.C03.isEmpty_iff b hwf]
   cases hl : (abs b).legalMoves with
   | nil => exact absurd hl hm
@@ -355,7 +359,7 @@ private theorem TP_pass0 (b : Board) : TP b (pass0 b.turn) :=
 
 private theorem TP_step (b : Board) (k depth : Nat) (tf : ThreeFold) (mv : Move) (p : Pass) (st : St)
     (p' : Pass) (st' : St) (hT : TP b p)
-    (hr : rootMove k b b.turn depth tf mv p st = (some p', st')) : TP b p' := by
+    (hr : rootMove pos k b b.turn depth tf mv p st = (some p', st')) : TP b p' := by
   obtain ⟨new, rfl, _, _, hmate, _⟩ := rootMove_some hr
   intro hs
   unfold accept at hs ⊢
@@ -369,8 +373,8 @@ private theorem TP_step (b : Board) (k depth : Nat) (tf : ThreeFold) (mv : Move)
 
 private theorem JP_step (b : Board) (k depth : Nat) (tf : ThreeFold) (mv : Move) (p : Pass) (st : St)
     (p' : Pass) (st' : St) (hJ : JP b p)
-    (hr : rootMove k b b.turn depth tf mv p st = (some p', st')) : JP b p' := by
-  refine ⟨?_, TP_step b k depth tf mv p st p' st' hJ.2 hr⟩
+    (hr : rootMove pos k b b.turn depth tf mv p st = (some p', st')) : JP b p' := by
+  refine ⟨?_, TP_step pos b k depth tf mv p st p' st' hJ.2 hr⟩
   obtain ⟨new, rfl, hns, hsh, _⟩ := rootMove_some hr
   unfold accept
   by_cases hb : isBetter b.turn p.score new = true
@@ -381,7 +385,7 @@ private theorem JP_step (b : Board) (k depth : Nat) (tf : ThreeFold) (mv : Move)
 
 private theorem FP_step (b : Board) (k depth : Nat) (tf : ThreeFold) (mv : Move) (p : Pass) (st : St)
     (p' : Pass) (st' : St) (hF : FP b p)
-    (hr : rootMove k b b.turn depth tf mv p st = (some p', st')) : FP b p' := by
+    (hr : rootMove pos k b b.turn depth tf mv p st = (some p', st')) : FP b p' := by
   obtain ⟨new, rfl, hns, hsh, _⟩ := rootMove_some hr
   have hb : isBetter b.turn p.score new = false := by
     rw [hF.1]
@@ -393,7 +397,7 @@ private theorem FP_step (b : Board) (k depth : Nat) (tf : ThreeFold) (mv : Move)
 private theorem JF_step (b : Board) (k depth : Nat) (tf : ThreeFold) (x : Move)
     (hxm : isMateMove b x = true) (hxd : drawnCapture b x = false) (p : Pass) (st : St)
     (p' : Pass) (st' : St) (hJ : JP b p)
-    (hr : rootMove k b b.turn depth tf x p st = (some p', st')) : FP b p' := by
+    (hr : rootMove pos k b b.turn depth tf x p st = (some p', st')) : FP b p' := by
   obtain ⟨new, rfl, _, _, _, hval⟩ := rootMove_some hr
   have hnew : new = mateInOne b.turn := by
     rw [hval hxm hxd, Props.C02.move_turn]
@@ -411,20 +415,20 @@ private theorem JF_step (b : Board) (k depth : Nat) (tf : ThreeFold) (x : Move)
 /-- a mate in one is found: when the first pass finishes and some legal move mates, the search
 returns a mating move and the mate-in-one score of the side to move -/
 theorem mate1_found (b : Board) (hwf : b.WF = true) (tf : ThreeFold) (k prev : Nat)
-    (hf : firstPassFinished b tf k = true)
+    (hf : firstPassFinished pos b tf k = true)
     (hm : ∃ mv ∈ Props.C10.movesOf (MoveGen.legals b), isMateMove b mv = true ∧ drawnCapture b mv = false) :
-    ∃ mv, (search b tf k prev).move = some mv ∧ isMateMove b mv = true ∧
-      (search b tf k prev).score = mateInOne b.turn := by
+    ∃ mv, (search pos b tf k prev).move = some mv ∧ isMateMove b mv = true ∧
+      (search pos b tf k prev).score = mateInOne b.turn := by
   obtain ⟨x, hxL, hxm, hxd⟩ := hm
-  have hfin := (firstPassFinished_iff b tf k _ _ rfl rfl).1 hf
-  rw [search_eq b tf k prev _ _ rfl rfl]
-  have hF := twoLoops_visit k b b.turn 0 tf (JP b) (FP b) x
-    (fun mv p st p' st' hJ hr => JP_step b k 0 tf mv p st p' st' hJ hr)
-    (fun p st p' st' hJ hr => JF_step b k 0 tf x hxm hxd p st p' st' hJ hr)
-    (fun mv p st p' st' hJ hr => FP_step b k 0 tf mv p st p' st' hJ hr)
+  have hfin := (firstPassFinished_iff pos b tf k _ _ rfl rfl).1 hf
+  rw [search_eq pos b tf k prev _ _ rfl rfl]
+  have hF := twoLoops_visit pos k b b.turn 0 tf (JP b) (FP b) x
+    (fun mv p st p' st' hJ hr => JP_step pos b k 0 tf mv p st p' st' hJ hr)
+    (fun p st p' st' hJ hr => JF_step pos b k 0 tf x hxm hxd p st p' st' hJ hr)
+    (fun mv p st p' st' hJ hr => FP_step pos b k 0 tf mv p st p' st' hJ hr)
     (MoveGen.legals b) rfl (Legal.wf_entries_le b hwf) (b.raw.color b.turn.flip)
     ((avail_legals_iff b x).2 hxL) (pass0 b.turn) ⟨0, 0⟩ ⟨Or.inl rfl, TP_pass0 b⟩ _ _ rfl rfl (by omega)
-  generalize rootLoop k b b.turn 0 tf 5000 (MoveGen.setMask _ BB.full) _ _ = l2 at hfin hF ⊢
+  generalize rootLoop pos k b b.turn 0 tf 5000 (MoveGen.setMask _ BB.full) _ _ = l2 at hfin hF ⊢
   obtain ⟨hs, m, hbm, hmm⟩ := hF
   rw [if_neg (by omega)]
   refine ⟨m, ?_, hmm, ?_⟩
@@ -447,15 +451,15 @@ theorem mate1_found (b : Board) (hwf : b.WF = true) (tf : ThreeFold) (k prev : N
 
 /-- a mate-in-one score is truthful: the returned move mates -/
 theorem mate1_truthful (b : Board) (tf : ThreeFold) (k prev : Nat)
-    (hs : (search b tf k prev).score = mateInOne b.turn) :
-    ∃ mv, (search b tf k prev).move = some mv ∧ isMateMove b mv = true := by
-  have key := deepen_inv k b b.turn tf
+    (hs : (search pos b tf k prev).score = mateInOne b.turn) :
+    ∃ mv, (search pos b tf k prev).move = some mv ∧ isMateMove b mv = true := by
+  have key := deepen_inv pos k b b.turn tf
     (fun o s => s = mateInOne b.turn → ∃ m, o = some m ∧ isMateMove b m = true) (TP b)
     (fun _ _ => TP_pass0 b)
-    (fun mv s depth st p' st' _ hr => TP_step b k depth tf mv _ st p' st' (TP_pass0 b) hr)
+    (fun mv s depth st p' st' _ hr => TP_step pos b k depth tf mv _ st p' st' (TP_pass0 b) hr)
     (fun depth n g p st _ hP =>
-      rootLoop_inv k b b.turn depth tf (TP b) (fun _ => True)
-        (fun mv p st p' st' _ hT hr => TP_step b k depth tf mv p st p' st' hT hr)
+      rootLoop_inv pos k b b.turn depth tf (TP b) (fun _ => True)
+        (fun mv p st p' st' _ hT hr => TP_step pos b k depth tf mv p st p' st' hT hr)
         n g p st (fun _ _ => trivial) hP)
     (fun p hP => hP)
     (k + 2) 0 none (worst b.turn) prev ⟨0, 0⟩ (fun h => absurd h (worst_ne_mateInOne b.turn))
